@@ -80,7 +80,13 @@ def sessions(draw):
     fams = draw(st.lists(st.sampled_from(IP_FAMILIES), min_size=1, max_size=5, unique=True))
     fams = [list(f) for f in sorted(set(map(tuple, fams)) | ({(1, 1)} if draw(st.booleans()) else set()))]
     ap = [f for f in fams if tuple(f) in [(1, 1), (2, 1), (1, 4), (2, 4), (1, 128), (2, 128)] and draw(st.booleans())] if draw(st.booleans()) else []
-    return {'asn4': draw(st.booleans()), 'families': fams, 'addpath': ap, 'peer_as': draw(st.sampled_from([65000, 65001, 70000]))}
+    out = {'asn4': draw(st.booleans()), 'families': fams, 'addpath': ap, 'peer_as': draw(st.sampled_from([65000, 65001, 70000]))}
+    # (exabgp only offers the capability for a family whose IPv6 twin is configured too: documented precondition)
+    v4 = [f for f in fams if f[0] == 1 and [2, f[1]] in fams]
+    if v4 and draw(st.integers(0, 2)) == 0:
+        # RFC 8950: IPv4 NLRI of these families may come with an IPv6 next hop
+        out['extnh'] = [f for f in v4 if draw(st.booleans())] or v4[:1]
+    return out
 
 
 def has_ap(session, afi, safi):
@@ -116,7 +122,8 @@ def updates(draw, session=None, mp_only_ip=True):
     unreach = None
     if mp_fams and draw(st.booleans()):
         afi, safi = draw(st.sampled_from(mp_fams))
-        hops = [draw(v4)] if afi == 1 else ([draw(v6)] + ([draw(v6_ll)] if (safi != 128 and draw(st.integers(0, 3)) == 0) else []))
+        six = afi == 2 or ([afi, safi] in s.get('extnh', []) and draw(st.integers(0, 3)) != 0)
+        hops = [draw(v4)] if not six else ([draw(v6)] + ([draw(v6_ll)] if (safi != 128 and draw(st.integers(0, 3)) == 0) else []))
         n = draw(st.sampled_from([1, 1, 2, 3, 8, 40]))
         reach = {'afi': afi, 'safi': safi, 'hops': hops, 'entries': draw(st.lists(entry(afi, safi, has_ap(s, afi, safi)), min_size=1, max_size=n, unique_by=entry_key))}
     if mp_fams and draw(st.integers(0, 2)) == 0:
@@ -264,6 +271,8 @@ def peer_open_for(session: dict, extra_caps: list[bytes] | None = None, ext_msg:
         caps.append(build.cap_addpath([(a, sf, 3) for a, sf in session['addpath']]))
     if ext_msg:
         caps.append(build.cap_ext_msg())
+    if session.get('extnh'):
+        caps.append(build.cap_ext_nh([(a, sf, 2) for a, sf in session['extnh']]))
     caps += extra_caps or []
     asn2v = session['peer_as'] if session['peer_as'] <= 65535 else 23456
     return build.open_with_caps(asn2v, 90, 0x0A000002, caps)
